@@ -202,3 +202,55 @@ func VH_C18_CloseVsTick() {
 	time.Sleep(5 * time.Second)
 	p.shutdown()
 }
+
+// VH_C18_LoopVsSetter: the connection's own receive activity against the
+// timeout setters. One goroutine runs the real receive loop over a script of
+// two packets (in-order data, out-of-order data twice - the NACK path with its
+// back-off test -, ACK then NACK for queued packets, a ping and its answer);
+// another goroutine calls one of the setters / getters the application may
+// call at any time. Every interleaving at lock operations within the
+// deviation budget; data races, lock-order and recursive-read-lock deadlocks
+// are reported.
+func VH_C18_LoopVsSetter() {
+	scripts := [4][2]Message{
+		{&PacketData{Seq: 0, FinalChunk: true, Payload: []byte{1}}, &PacketData{Seq: 1, FinalChunk: true, Payload: []byte{2}}},
+		{&PacketData{Seq: 2, FinalChunk: true, Payload: []byte{1}}, &PacketData{Seq: 2, FinalChunk: true, Payload: []byte{1}}},
+		{&PacketACK{Seq: 0}, &PacketNACK{Seq: 1}},
+		{&PacketData{Seq: 0, IsPing: true}, &PacketACK{Seq: 1}},
+	}
+	sc := scripts[vIntRange("script", 0, 3)]
+	w := &vWire{}
+	for _, m := range sc {
+		b, err := m.Serialize()
+		vAssume(err == nil)
+		w.in = append(w.in, b)
+	}
+	g := vConn(3, w)
+	// two packets outstanding, so that ACK and NACK do real work
+	for i := 0; i < 2; i++ {
+		pkt := &PacketData{Payload: []byte{byte(i)}, FinalChunk: true}
+		g.sendQueue.addPacket(pkt)
+		g.timeoutManager.Sent(pkt, false)
+	}
+	op := vIntRange("setter", 0, 3)
+	var wg sync.WaitGroup
+	wg.Add(2)
+	go func() { defer wg.Done(); _ = g.receivePacketsForever() }()
+	go func() {
+		defer wg.Done()
+		switch op {
+		case 0:
+			g.SetSendTimeout(time.Minute)
+		case 1:
+			g.SetRecvTimeout(time.Minute)
+		case 2:
+			g.SetSendTimeout(time.Minute)
+			g.SetRecvTimeout(time.Second)
+		case 3:
+			_ = g.timeoutManager.GetResendTimeout()
+			g.SetRecvTimeout(time.Minute)
+		}
+	}()
+	wg.Wait()
+	vReach("loop-vs-setter")
+}
